@@ -24,7 +24,9 @@ def run(chk):
         'exact counts, target\'s held references unchanged. '
         'distinct_nontrivial = distinct (n, source order, target order, route)')
     chk.mc('MC_Ops2', 'MC_Let2.cfg')     # _copy_bdd within one manager (CopyRename) refines RenameC
-    chk.mc('MC_CopyLoad', 'MC_CopyLoad.cfg' if q else 'MC_CopyLoad_deep.cfg', timeout=3000)   # two managers, every receiver order
+    chk.mc('MC_CopyLoad', 'MC_CopyLoad.cfg' if q else 'MC_CopyLoad_deep.cfg', timeout=5000)   # two managers, every receiver order
+    if not q:
+        chk.mc('MC_CopyLoad', 'MC_CopyLoad_q5.cfg', timeout=5000)     # build-only operands, one level deeper
     tasks = []
     tid = 11000000
     pairs3 = [(a, b) for a in ORDERS3 for b in ORDERS3]
